@@ -261,6 +261,8 @@ pub enum Kind
 pub enum Hook
 {
     CommandApply{ kind: Kind, target: Name, source: Option<Name>, data: Option<Name> },
+    /// Garbage collection of auto-despawned entities starts.
+    Gc,
     /// A polled reaction was detected and queued.
     Scheduled{ kind: Kind, target: Name, source: Name },
     RunnerEnter{ target: Name, counter: u32 },
